@@ -179,20 +179,28 @@ def run(ctx):
             continue
         nfeasible += 1
         k = failed = 0
+        cond = False
         for i_, n in enumerate(p):
             if not is_emit(n):
                 continue
-            if n.kind == "test" and i_ + 1 < len(p) and not isinstance(n.stmt, (ast.For, ast.While)) or (n.kind == "test" and isinstance(n.stmt, ast.While)):
-                labs = [lab for m, lab in n.succ if m is p[i_ + 1]] if i_ + 1 < len(p) else []
-                if labs == [False] and isinstance(n.ast, ast.Call):
+            if n.kind == "test" and isinstance(n.ast, ast.expr) and i_ + 1 < len(p):
+                labs = [lab for m, lab in n.succ if m is p[i_ + 1]]
+                conj = n.ast.values if isinstance(n.ast, ast.BoolOp) and isinstance(n.ast.op, ast.And) else [n.ast]
+                direct = [c_ for c_ in conj if isinstance(c_, ast.Call) and isinstance(c_.func, ast.Name) and c_.func.id in EMITS]
+                if direct and labs == [False]:
+                    # the wrapper reported failure (that flow failed alone), or an earlier conjunct kept it from being tried
                     failed += 1
                     continue
+                if direct and labs == [True]:
+                    k += 1
+                    continue
             k += 1
+            cond = cond or _conditional_emit(n)
         if k == 0 and failed and not any(n in inner_heads for n in p):
             # every candidate failed to create its event (each failed alone) and the iteration ends without touching another head: nothing to proceed
             continue
         counts.add(k)
-        if any(_conditional_emit(n) for n in p):
+        if cond:
             counts.add(k - 1)
     counts = sorted(counts)
     ctx.stat("group_iteration_paths_feasible", nfeasible)
@@ -256,6 +264,49 @@ def run(ctx):
             return "abort"
         return None
 
+    # wrappers that fail the head's flow ALONE and report it by their result: `v = wrapper(state, head)` followed by leaving through `v is None` / a false result is the fate
+    # "abort" of that head (the abort happened inside the wrapper's handler)
+    def _aborts(stmts, depth=1):
+        for st in stmts:
+            for c in ast.walk(st):
+                if isinstance(c, ast.Call) and isinstance(c.func, ast.Name):
+                    if c.func.id == "_abort_flow":
+                        return True
+                    g = next((f_ for f_ in functions(t) if f_.name == c.func.id), None)
+                    if g is not None and depth > 0 and g is not fn and _aborts(g.body, depth - 1):
+                        return True
+        return False
+    FAIL_ALONE = set()
+    for f_ in functions(t):
+        trs = [x for x in f_.body if isinstance(x, ast.Try)]
+        if len(trs) == 1 and trs[0] is f_.body[-1] or (len(f_.body) == 2 and isinstance(f_.body[0], ast.Expr) and trs and trs[0] is f_.body[1]):
+            tr_ = trs[0]
+            hs = [h_ for h_ in tr_.handlers if h_.type is None or src(h_.type) in ("Exception", "BaseException")]
+            if hs and _aborts(hs[0].body) and isinstance(hs[0].body[-1], ast.Return) and (hs[0].body[-1].value is None or src(hs[0].body[-1].value) in ("None", "False")) \
+                    and not any(isinstance(r, ast.Return) and (r.value is None or src(r.value) in ("None", "False")) for st in tr_.body for r in ast.walk(st)):
+                FAIL_ALONE.add(f_.name)
+    ctx.stat("fail_alone_wrappers", sorted(FAIL_ALONE))
+
+    def wrapper_abort(p):
+        """the path takes the failure side of a fail-alone wrapper applied to the competing head"""
+        held = {}
+        for k_, n in enumerate(p):
+            if n.kind == "stmt" and isinstance(n.ast, ast.Assign) and isinstance(n.ast.targets[0], ast.Name) and isinstance(n.ast.value, ast.Call) \
+                    and isinstance(n.ast.value.func, ast.Name) and n.ast.value.func.id in FAIL_ALONE and any(src(a_) == ihv for a_ in n.ast.value.args):
+                held[n.ast.targets[0].id] = True
+            if n.kind == "test" and isinstance(n.ast, ast.expr) and k_ + 1 < len(p):
+                labs = [lab for m, lab in n.succ if m is p[k_ + 1]]
+                if len(labs) != 1 and not (k_ + 1 == len(p) - 1 and p[k_ + 1] is inode):
+                    continue
+                for v_ in held:
+                    tv = truth(n.ast, {"%s is None" % v_: True, v_: False})
+                    if tv is not None and labs and labs[0] is tv:
+                        return True
+                for c_ in (n.ast.values if isinstance(n.ast, ast.BoolOp) else [n.ast]):
+                    if isinstance(c_, ast.Call) and isinstance(c_.func, ast.Name) and c_.func.id in FAIL_ALONE and any(src(a_) == ihv for a_ in c_.args) and labs == [False]:
+                        return True
+        return False
+
     ipaths = []
     for f0 in [m for m, lab in inode.succ if lab is True]:
         ipaths += cfg.paths(f0, inode, max_paths=20000, back_limit=1)
@@ -309,6 +360,8 @@ def run(ctx):
 
     for p in ipaths:
         fates = [fate(n) for n in p if fate(n)]
+        if wrapper_abort(p):
+            fates.append("abort")
         if _is_picked_path(p):
             # only the picked head is passed over, and nothing happens to it here
             if fates:
